@@ -36,8 +36,8 @@ CONSTANTS NFns,        \* declarations per library
 
 Reps == { Sc("bool"), Sc("schar"), Sc("uchar"), Sc("short"), Sc("ushort"), Sc("int"), Sc("uint"),
           Sc("long"), Sc("ullong"), Sc("float"), Sc("double"), En("E_s", "c_int"),
-          St("S1"), St("S3"), St("S8m"), St("S8f"), St("S12m"), St("S16id"), St("S16di"), St("S16f"),
-          St("S17"), St("S24d"), Un("U8"), Un("U16"), Ptr("pc_char", TRUE, Sc("char")),
+          St("S1"), St("S3"), St("S8m"), St("S8f"), St("struct_S12m"), St("S16id"), St("S16di"), St("S16f"),
+          St("S17"), St("S24d"), Un("union_U8"), Un("U16"), Ptr("pc_char", TRUE, Sc("char")),
           Arr("a4_int", FALSE, Sc("int"), 4), Fp("cb_i_i", Sc("int"), <<Sc("int")>>) }
 
 ArgPool == CASE ArgSet = "all" -> ArgTypes [] ArgSet = "reps" -> Reps [] OTHER -> ValueTypes
